@@ -391,6 +391,8 @@ def kf_c07_1(container):
 
 
 def replay(case):
+    if "fresh" in case:
+        return fresh_check(*case["fresh"])
     import fickling  # noqa: F401
 
     base_allowlist()
@@ -424,12 +426,47 @@ def _case_strategy():
     return st.tuples(leaf, loaders, st.booleans(), adds, st.just(None), st.sampled_from(STREAMS))
 
 
+FRESH_PRELUDES = ("nothing", "pickle.load wrapped", "pickle.loads wrapped", "pickle imported as alias first")
+
+
+def fresh_check(prelude, entry):
+    """the four entry points are mediated whatever the application did to the pickle module before
+    fickling was imported (a tracing wrapper around pickle.load, ...): fresh interpreter per case"""
+    import json
+    import os
+    import subprocess
+    import sys
+
+    from vlib import env
+
+    child = os.path.join(os.path.dirname(os.path.abspath(__file__)), "c07_fresh.py")
+    pr = subprocess.run([sys.executable, child, env.REPO, env.HELPERS, prelude, entry], capture_output=True, text=True, timeout=900)
+    if pr.returncode != 0 or not pr.stdout.strip():
+        raise RuntimeError(f"fresh child failed ({pr.returncode}): {pr.stderr[-400:]}")
+    doc = json.loads(pr.stdout.strip().splitlines()[-1])
+    if doc["ran"] or doc["outcome"] == "returned":
+        return Failure({"fresh": [prelude, entry]},
+                       f"fresh process, {prelude} before `import fickling`, safe ML environment activated: a pickle calling a "
+                       f"non-allow-listed global through {entry} {doc['outcome']} (called: {doc['ran']})")
+    return None
+
+
 def shards(tier):
     per = 40 if tier == "quick" else 8000
-    return [{"kind": "nest", "n": per, "idx": i} for i in range(16)]
+    return [{"kind": "nest", "n": per, "idx": i} for i in range(16)] + [{"kind": "fresh", "prelude": p} for p in FRESH_PRELUDES]
 
 
 def run_shard(spec, seed):
+    if spec["kind"] == "fresh":
+        res = ShardResult()
+        for entry in ENTRY:
+            f = fresh_check(spec["prelude"], entry)
+            res.note((spec["prelude"], entry), spec["prelude"] != "nothing", klass=["fresh-process", "entry:" + entry],
+                     sample={"fresh": [spec["prelude"], entry]})
+            if f is not None:
+                res.failures.append(f)
+                break
+        return res
     import torch  # noqa: F401
 
     import fickling  # noqa: F401
